@@ -42,6 +42,12 @@ def float_update(p, cse, key, e, k=None, warm=True):
             cov = ekf.Covariance.from_data(pyh.float_cov(p.state, e))
             rd = ekf.make_reading(key, **{r: float(e[f"z_{key}_{r}"]) for r in p.sensors[key]})
             r = ekf.sensor_model(st, cov, sensor_key=key, sensor_reading=rd)
+            # a second, different filter object with the same sensor keys is updated before the records are read back
+            decoy = pyh.build_ekf_float(pyh.decoy_program(p), e, cse=cse, pn=pn, sn=sn, k=None)
+            dst = decoy.State(**{s: float(e[s]) * 0.5 + 0.125 for s in p.state})
+            dcov = decoy.Covariance()
+            for k2 in p.s_sensors():
+                decoy.sensor_model(dst, dcov, sensor_key=k2, sensor_reading=decoy.make_reading(k2, **{r2: 0.375 for r2 in p.sensors[k2]}))
             return {
                 "state": np.array(r.state.data, dtype=float).reshape(-1),
                 "cov": np.array(r.covariance.data, dtype=float),
